@@ -117,10 +117,20 @@ def check (oc : Bool) (pre impl : List String) : Option (List String × Bool) :=
   let mut v : List String := []
   if mcalls != icallsS || mlog != ilog then v := "DRIFT" :: v
   -- property observables: per call the result and `readable ++ undelivered`; per call the number of reader calls
+  -- per call: the result and `readable ++ undelivered`; calls that ended in a reader fault (error / panic) are erased, because
+  -- C06 only demands that the fault-free results and the stream partition are those of the error-free run
   let proj (cs : List String) : List String := cs.filterMap fun c =>
-    (call? c).map fun o => s!"{o.res}|{hex (o.rd ++ s.data.drop o.pos)}"
+    match call? c with
+    | some o => if isReaderFault o.res then none else some s!"{o.res}|{hex (o.rd ++ s.data.drop o.pos)}"
+    | none => some c
+  let faultKinds (cs : List String) : List String := cs.filterMap fun c =>
+    match call? c with
+    | some o => if isReaderFault o.res then some o.res else none
+    | none => none
   let segCounts (l : List String) := (segments l).map List.length
-  if proj mcalls != proj icallsS then v := (if faults then "DIFF C06" else "DIFF C02") :: v
+  let contractDf := (pdf? df).isSome
+  if proj mcalls != proj icallsS || faultKinds mcalls != faultKinds icallsS then
+    v := (if faults || !contractDf then "DIFF C06" else "DIFF C02") :: v
   -- C12's observables are the truth values of its clauses on the log (raw destination lengths and call
   -- counts are compared as drift only): the model satisfies them by theorem, so a disagreement is exactly
   -- a failure of the predicate on the implementation's own log, reported as UNSAT below
@@ -129,6 +139,10 @@ def check (oc : Bool) (pre impl : List String) : Option (List String × Bool) :=
   match pdf? df with
   | some g =>
     if !satStream n g s.data icalls (rd0 ++ s.data) then v := (if faults then "UNSAT C06" else "UNSAT C02") :: v
+    -- every reader fault comes back with the kind the reader produced, in order
+    let scripted := s.racts.filterMap fun a => match a with | .err k => some s!"err{k}" | .panic => some "panic" | _ => none
+    let seen := faultKinds icallsS
+    if faults && seen != scripted.take seen.length then v := "UNSAT C06" :: v
   | none =>
     -- rejecting deframers: own errors repeat and leave the unread bytes intact (compared against the model only)
     pure ()
